@@ -16,6 +16,10 @@ CHECKS = {
     text="Differential runtime monitor: the real tokenizer's delivered tokens (coalesced characters, NUL distinct, errors dropped) are compared with an independent WHATWG reference tokenizer under the same start state, last start tag and sink policy; every (state x character class x suffix) single transition from all seven content-model start states, class pairs, and millions of random markup-soup cases under tree-builder-like, constant and hashed sink policies (incl. both answers of the foreign query).",
     note="trusts the hand-written reference tokenizer (validated against committed vectors; no spec copy or second parser exists offline) and the entity table exported from Python's html.entities",
     technique="runtime monitoring: recorded token history checked against an executable reference model (differential)"),
+ "C02": dict(
+    text="Differential runtime monitor: the tree and quirks mode the real tree builder delivers to an abstract-DOM sink are compared with an independent WHATWG tree-construction reference model (driven by the reference tokenizer) on millions of grammar/scenario/soup documents, ~60 fragment contexts x scripting x iframe-srcdoc x initial quirks; disagreements are minimised and classified against named deviation switches; the model must pass 284 committed known-answer vectors.",
+    note="trusts the hand-written reference tree builder (validated by vectors; disagreements adjudicated against the spec); selectedcontent and <input> in a select fragment context are excluded as undecided; declarative shadow roots held off",
+    technique="runtime monitoring: sink-call history materialised and checked against an executable reference model (differential)"),
  "C03": dict(
     text="Metamorphic runtime monitor: every chunked/paused execution of the real tokenizer and parser is compared with the one-piece execution of the same input (coalesced tokens incl. parse errors, lines, suspension sequence, tree, quirks). All 2-chunk and all-1-char schedules of every enumerated single-transition input plus random schedules of generated documents; script-pause injections compared with the spliced source.",
     note="oracle = the real code on the unchunked input; defects that affect chunked and unchunked runs alike are invisible here (C01/C02 cover those)",
@@ -32,6 +36,10 @@ CHECKS = {
     text="Invariant at quiescence: after every generated document parse (grammar, scenarios, skeleton-focused soup; exhaustive 2-chunk schedules of short inputs, random schedules; both scripting settings) the finished tree of the abstract DOM and of RcDom is walked by a skeleton checker.",
     note="'frameset optionally followed by noframes' read as 'only noframes may follow'; one spec-mandated exception is a listed known finding",
     technique="runtime monitoring: structural invariant checked on the finished tree"),
+ "C07": dict(
+    text="Round-trip + metamorphic + exhaustive matrix: hand-built RcDom trees over a safe vocabulary with hostile strings are serialized and re-parsed as a fragment (tree equality); for every element of generated, parsed and hand-built trees outer == start + inner + end under both scripting settings; exhaustive parent x namespace x text matrix against an independent 5-rule escaper.",
+    note="pre/listing/textarea excluded from the round-trip vocabulary (the HTML syntax drops a leading LF there); void elements only checked childless",
+    technique="runtime monitoring: round-trip tree equality, inner/outer metamorphic relation, exhaustive escaping matrix"),
  "C08": dict(
     text="Metamorphic option-flip monitor: two executions of the real code on the same input and schedule differing in exactly one of exact_errors / profile / discard_bom / drop_doctype (HTML tokenizer, tree builder, XML) are compared (tokens minus parse errors with lines, tree, quirks); includes SIMD-offset text runs (exact_errors forces the scalar path) and all enumerated tokenizer transitions.",
     note="oracle = the real code under the other option value",
@@ -40,6 +48,22 @@ CHECKS = {
     text="Line monitor: each non-character token and the end of each character run must carry 1 + the line breaks consumed by the reference tokenizer at that emission; EOF = 1 + breaks of the whole input (counted independently). LF/CR/CRLF substituted at every position of every tokenizer-state prefix x continuation, under all 2-chunk and 1-char schedules; token-by-token check that the tree builder forwards the line to the sink.",
     note="trusts the reference tokenizer's consumed-offset bookkeeping; token streams that differ from the model are left to C01",
     technique="runtime monitoring: (token, line) history checked against a position-tracking reference model"),
+ "C10": dict(
+    text="Differential: exhaustive over all byte strings of length <= 4 (5 in thorough) on 25 UTF-8 byte-class representatives under every chunking against String::from_utf8_lossy with an independent replacement count; random strings; all 40 encoding_rs encodings, chunked LossyDecoder vs one-shot decode incl. BOMs, ISO-2022-JP escapes, UTF-16 surrogate halves, truncation at EOF and outputs > 8 KiB; from_utf8() HTML and XML parsers vs parsing the lossy string. Miri leg (ASan in thorough).",
+    note="String::from_utf8_lossy and encoding_rs's one-shot decode are the trusted references",
+    technique="runtime monitoring: differential against reference decoders, exhaustive on the byte-class quotient; Miri/ASan sanitizer legs"),
+ "C11": dict(
+    text="History + executable model: random operation histories over pools of tendrils in 5 formats x 2 atomicities; after every operation every live tendril is compared with its own Vec<u8> model and every Ok/Err/panic outcome with independently written validity predicates; character, slice, conversion and SendTendril operations included. The same histories run under Miri (and ASan / debug assertions in thorough).",
+    note="validity oracles: str::from_utf8, a hand-written generalized UTF-8 decoder for WTF-8, < 0x80 for ASCII",
+    technique="runtime monitoring: operation history checked against an executable model; Miri/ASan sanitizer legs"),
+ "C12": dict(
+    text="Sanitizers + conservation: a checking global allocator audits every allocation made inside tendril calls (layout match, double/foreign free, red zones, poison after free) and after every operation checks live buffers == owned + distinct shared buffers of the pool, 0 after teardown; thread scenarios distribute clones/sub-slices/SendTendrils of atomic tendrils over 2-8 threads with random drop orders. Miri (UB, leaks, data races, many seeds) in quick; ASan/LSan and ThreadSanitizer (reports classified, fence blind spot counted not judged) in thorough.",
+    note="a clean sanitizer/allocator-monitor run is evidence, not proof; Miri runs with permissive provenance; TSan cannot model atomic::fence so Miri is the race oracle for the last-drop protocol",
+    technique="runtime monitoring: checking allocator (conservation, red zones, poison), Miri, AddressSanitizer, ThreadSanitizer"),
+ "C13": dict(
+    text="History + model: random interleavings of push_back/push_front/next/peek/pop_except_from/eat/pop_front over random partitions, sets and patterns compared call by call with a VecDeque<String> model, drained remainder equal at the end; also under debug assertions and Miri.",
+    note="the empty pattern is not exercised",
+    technique="runtime monitoring: operation history checked against an executable model; Miri leg and debug-assertion build"),
  "C14": dict(
     text="Exhaustive differential over the finite space: 2231 names x {exact, no semicolon, truncated, extended, name-prefixes} x 15 follower classes x 5 contexts, every numeric value 0..=0x110000 in decimal/x/X with several terminators, overflow lengths and non-references; judged by a direct resolver over an independent entity table and by the reference tokenizer; web_atoms' generated table compared entry by entry incl. prefix entries; XML tokenizer for '&name;' and numeric forms.",
     note="entity table from Python's html.entities.html5; C1 table hard-coded from windows-1252; XML5 no-semicolon rules not claimed",
@@ -56,6 +80,14 @@ CHECKS = {
     text="Round-trip monitor: parse -> xml5ever::serialize -> parse, trees compared node by node (local names, prefixes, namespace URIs, attribute values, text, comments, PIs; doctype excluded) over namespace shapes with hostile text/attribute strings and XML soup whose names are XML names.",
     note="trees come from parsing; names that are not XML names are out of scope; one parser quirk (PI data with leading white space) is a listed known finding",
     technique="runtime monitoring: round-trip (serialize then re-parse) tree equality"),
+ "C19": dict(
+    text="History + model: the EncodingIndicator results of feed() are compared with expectations derived from the html meta elements the sink was asked to create (charset value, or an independent 'extract a character encoding from a meta element' for http-equiv=content-type), exactly one per declaring meta, raised while that meta is the newest element and already attached; enumerated content strings, 15 meta variants x 26 placements x all 2-chunk splits x scripting x fragments, random documents.",
+    note="an empty extraction result is accepted either way; expectations key on meta elements actually created",
+    technique="runtime monitoring: suspension history checked against an independent model"),
+ "C20": dict(
+    text="Tee sink: every TreeSink call goes to RcDom and to the abstract DOM; structural equality after parses (HTML incl. customizable select, XML) and during direct random sequences of valid operations; parent-link audit; recording Serializer must see each node once in document order. Miri leg.",
+    note="the abstract DOM encodes the documented sink semantics; duplicate-attribute flag not stored by RcDom and not compared",
+    technique="runtime monitoring: sink-call history replayed onto an abstract model and compared; structural audits; Miri leg"),
  "C18": dict(
     text="GC-simulating sink: at every feed() return (1-character chunks, random schedules, script pauses) trace_handles is called and every node unreachable from the traced handles is poisoned; any later sink call receiving a poisoned handle is a violation, and the final tree must equal the run without collection. HTML documents, fragments and XML.",
     note="reachability over parent/children/template-contents edges as the property states; only meaningful when collections actually poison nodes (counted in evidence)",
@@ -81,7 +113,7 @@ def main():
     na = [{"property_id": p, "reason": "check not built yet in this session (work in progress; see DESIGN.md)"} for p in all_ids if p not in CHECKS]
     m = {
         "version": 1,
-        "setup_cmd": "cd /verif && CARGO_NET_OFFLINE=true CARGO_TARGET_DIR=/verif/target cargo build --offline --release --manifest-path harness/Cargo.toml",
+        "setup_cmd": "cd /verif && CARGO_NET_OFFLINE=true CARGO_TARGET_DIR=/verif/target cargo build --offline --release --manifest-path harness/Cargo.toml && (cd harness && MIRIFLAGS='-Zmiri-disable-isolation -Zmiri-permissive-provenance' CARGO_NET_OFFLINE=true CARGO_TARGET_DIR=/verif/target-miri cargo +nightly miri run --offline -- NOP)",
         "hooks": {
             "guard": "cargo feature `verif` (declared in markup5ever, html5ever, xml5ever; off by default)",
             "enable": "the harness crate depends on html5ever/xml5ever/markup5ever by path with features=[\"verif\"]",
@@ -89,7 +121,7 @@ def main():
             "source_commits": hook_commits(),
             "add_only": True,
         },
-        "engines": [{"name": "vharness", "path": "harness", "serves_properties": sorted(CHECKS), "kind_free_text": "Rust monitor binary: runs the real crates (path deps on /repo, hooks on) under generated workloads with oracles; ./check drives it and the sanitizer legs"}],
+        "engines": [{"name": "vharness", "path": "harness", "serves_properties": sorted(CHECKS), "kind_free_text": "Rust monitor binary: runs the real crates (path deps on /repo, hooks on) under generated workloads with oracles; ./check drives it and the sanitizer legs"}, {"name": "sanitizer-legs", "path": "legs/legs.py", "serves_properties": ["C04", "C10", "C11", "C12", "C13", "C20"], "kind_free_text": "runs the same harness workloads under cargo miri, -Zsanitizer=address, -Zsanitizer=thread (-Zbuild-std) and the debug-assertion profile; classifies reports; merges into evidence"}],
         "checks": checks,
         "not_applicable": na,
         "notes": "exit 0 = held on everything observed (KNOWN-FINDING lines possible), 1 = VIOLATION, 2 = INCONCLUSIVE (never a VIOLATION line). VERIF_SEED seeds all random choices; enumerated parts do not depend on it.",
